@@ -6,7 +6,7 @@ import ast
 from sa.engine.facts import Bad, F
 from sa.engine.pattern import u, dump
 from sa.engine.source import norm
-from .common import A, MEM, checkpoint_typestate, queue_ends
+from .common import A, MEM, checkpoint_typestate, queue_ends, waiter_guard
 
 EXPLANATION = ("Memory object streams: exactly-once placement in send_nowait, exactly-once take in receive_nowait, bounded buffer appends, "
                "FIFO queue ends of buffer/waiting_senders/waiting_receivers, register/deregister pairing of blocked send/receive, "
@@ -85,6 +85,10 @@ def check(ctx):
             continue  # covered by R12-d: the moved item is popped again in the same atomic section
         ctx.require_at("R12-c", f, st, [[f"len({BUF}) < self._state.max_buffer_size"]],
                        instance="append only while the buffer has room", what="buffer append")
+
+    for st, _ in ctx.sites(send_nowait, f"{BUF}.append($X)"):
+        ctx.require_at("R12-c", send_nowait, st, [["not self._state.waiting_receivers"]],
+                       instance="an item is buffered only when no receiver is waiting (else it would be overtaken by the next item: reordering)", what="buffer append")
 
     # ---- R12-d take exactly once ----------------------------------------------------------------------------
     spairs = ctx.sites(recv_nowait, "$E, $I = self._state.waiting_senders.popitem(last=False)")
@@ -186,15 +190,7 @@ def check(ctx):
                by=("@exc=WouldBlock",))
 
     # ---- R12-g wake-up is not overtaken by cancellation ----------------------------------------------------------
-    deliver = ctx.fn("CancelScope._deliver_cancellation", A)
-    cs = ctx.sites(deliver, "$T.cancel($*A)")
-    ctx.need("R12-g", deliver, "`task.cancel(...)` in _deliver_cancellation", len(cs), 1)
-    for call, env in cs:
-        t = u(env["T"])
-        w = ctx.sites(deliver, f"$W = {t}._fut_waiter")
-        wn = u(w[0][1]["W"]) if w else f"{t}._fut_waiter"
-        ctx.require_at("R12-g", deliver, call, [[f"not isinstance({wn}, asyncio.Future)"], [f"not {wn}.done()"]],
-                       instance="a task whose wake-up future already completed is not cancelled", what="task.cancel")
+    waiter_guard(ctx, "R12-g", "a task whose wake-up future already completed is not cancelled")
 
     # ---- R12-h pending-cancellation test ------------------------------------------------------------------------
     hp = ctx.fn("AsyncIOTaskInfo.has_pending_cancellation", A)
